@@ -474,7 +474,8 @@ def _rec_prop(prop, rule):
                 Family("inflight", "rec", "RecTrace", rec_gen.generate("inflight", 200 * n, seed * 61 + int(prop[1:]))),
                 Family("retrywindow", "rec", "RecTrace", rec_gen.generate("retrywindow", 250 * n, seed * 71 + int(prop[1:]))),
                 Family("lowwatermark", "rec", "RecTrace", rec_gen.generate("lowwatermark", 150 * n, seed * 73 + int(prop[1:]))),
-                Family("refresh", "rec", "RecTrace", rec_gen.generate("refresh", 120 * n, seed * 79 + int(prop[1:])))]
+                Family("refresh", "rec", "RecTrace", rec_gen.generate("refresh", 120 * n, seed * 79 + int(prop[1:]))),
+                Family("sharedset", "rec", "RecTrace", rec_gen.generate("sharedset", 150 * n, seed * 83 + int(prop[1:])))]
         return design, fams, [prop], dict(
             rule=rule, nontrivial=lambda ops: any(o["op"] in ("fail", "inject") for o in ops),
             assumptions=["virtual time (testing/synctest); operations are instantaneous; refresh loop enabled in family refresh and a fifth of the other non-idle scripts",
